@@ -5,3 +5,20 @@
 package types
 
 //@ func AccumulateChanges pure
+//@ loop 1 invariant [idx] 0 <= i && i <= len(currentChanges)
+//@ loop 1 invariant [keyed] forall k string :: has(m, k) ==> m[k].PubKey.String() == k
+//@ loop 1 invariant [cur-in] forall j int :: 0 <= j && j < i ==> has(m, currentChanges[j].PubKey.String())
+//@ loop 1 invariant [cur-last-wins] forall j int :: 0 <= j && j < i && (forall l int :: j < l && l < i ==> currentChanges[l].PubKey.String() != currentChanges[j].PubKey.String()) ==> m[currentChanges[j].PubKey.String()] == currentChanges[j]
+//@ loop 2 invariant [idx] 0 <= i#2 && i#2 <= len(newChanges)
+//@ loop 2 invariant [keyed] forall k string :: has(m, k) ==> m[k].PubKey.String() == k
+//@ loop 2 invariant [cur-in] forall j int :: 0 <= j && j < len(currentChanges) ==> has(m, currentChanges[j].PubKey.String())
+//@ loop 2 invariant [new-in] forall j int :: 0 <= j && j < i#2 ==> has(m, newChanges[j].PubKey.String())
+//@ loop 2 invariant [new-last-wins] forall j int :: 0 <= j && j < i#2 && (forall l int :: j < l && l < i#2 ==> newChanges[l].PubKey.String() != newChanges[j].PubKey.String()) ==> m[newChanges[j].PubKey.String()] == newChanges[j]
+//@ loop 2 invariant [cur-kept] forall j int :: 0 <= j && j < len(currentChanges) && (forall l int :: j < l && l < len(currentChanges) ==> currentChanges[l].PubKey.String() != currentChanges[j].PubKey.String()) && (forall l int :: 0 <= l && l < i#2 ==> newChanges[l].PubKey.String() != currentChanges[j].PubKey.String()) ==> m[currentChanges[j].PubKey.String()] == currentChanges[j]
+//@ ensures [overlay-new] forall j int :: 0 <= j && j < len(newChanges) && (forall l int :: j < l && l < len(newChanges) ==> newChanges[l].PubKey.String() != newChanges[j].PubKey.String()) ==> has(m, newChanges[j].PubKey.String()) && m[newChanges[j].PubKey.String()] == newChanges[j]
+//@ ensures [overlay-current] forall j int :: 0 <= j && j < len(currentChanges) && (forall l int :: j < l && l < len(currentChanges) ==> currentChanges[l].PubKey.String() != currentChanges[j].PubKey.String()) && (forall l int :: 0 <= l && l < len(newChanges) ==> newChanges[l].PubKey.String() != currentChanges[j].PubKey.String()) ==> has(m, currentChanges[j].PubKey.String()) && m[currentChanges[j].PubKey.String()] == currentChanges[j]
+
+//@ loop 3 invariant [keyed] forall k string :: has(m, k) ==> m[k].PubKey.String() == k
+//@ loop 3 invariant [from-map] forall j int :: 0 <= j && j < len(out) ==> has(m, out[j].PubKey.String()) && m[out[j].PubKey.String()] == out[j]
+//@ ensures [result-from-map] (stretch) forall j int :: 0 <= j && j < len(result) ==> has(m, result[j].PubKey.String()) && m[result[j].PubKey.String()] == result[j]
+//@ ensures [sorted] forall a int, b int :: 0 <= a && a < b && b < len(result) ==> result[a].Power > result[b].Power || (result[a].Power == result[b].Power && !(result[b].PubKey.String() > result[a].PubKey.String()))
